@@ -242,7 +242,7 @@ def write_replay(prop, seed, lines, suffix="ndjson"):
 
 
 def write_evidence(prop, tier, seed, coverage, wall, violations, assumptions, level="model_checking"):
-    d = os.path.join(VERIF, "evidence")
+    d = os.environ.get("VERIF_EVIDENCE_DIR") or os.path.join(VERIF, "evidence")   # (seed sweeps write elsewhere)
     os.makedirs(d, exist_ok=True)
     ev = dict(property_id=prop, tier=tier, seed=int(seed), level=level, coverage=coverage,
               assumptions=assumptions, wall_s=round(wall, 2), violations=violations)
